@@ -422,6 +422,8 @@ Proof.
       eapply Ext_trans; [exact X2|]. eapply Ext_trans; [eapply Ext_sba; eauto|exact X4].
   - (* SEpr *) intros k body IH Hp He. discriminate.
   - (* SFlush *) intros _ _ st c st' H. discriminate.
+  - intros a b n o m Hw. discriminate.
+  - intros q ip a b n Hw. discriminate.
   - intros _ _ st c st' H I. inv_ok H. split; [assumption|apply Ext_refl].
   - intros s IHs b IHb Hp He st c st' H I. cbn [bplain bnoepr] in Hp, He.
     apply andb_prop in Hp. destruct Hp as [Hp1 Hp2]. apply andb_prop in He. destruct He as [He1 He2].
